@@ -2,7 +2,7 @@
 (* C20: the rqcow2 command line.  TLC enumerates the class product; the     *)
 (* driver instantiates each class, runs the freshly built binary under a    *)
 (* timeout and compares with the expected outcome stated here.              *)
-EXTENDS Integers, Sequences, TLC, Json
+EXTENDS Integers, Sequences, TLC, Json, IOUtils
 
 \* raw input size classes for convert (bytes): 0, sub-block, sub-cluster,
 \* non-multiples of the block and cluster size, multi-chunk (> 8 MiB)
@@ -21,9 +21,29 @@ ConvertCases == { [t |-> "convert", size |-> s, content |-> c, exit |-> 0, padde
 FormatCases == { [t |-> "format", mb |-> mb, cb |-> cb, ro |-> ro, exit |-> 0]
                  : mb \in {1, 64, 1024}, cb \in {9, 12, 16, 21}, ro \in {0, 4, 6} }
 
+\* sizes at which the metadata of a fresh image (header, refcount table, L1
+\* table, refcount blocks) fills a whole number of refcount blocks, give or
+\* take a few clusters: the refcount blocks have to describe themselves, so
+\* that is where their number is easy to get wrong.  Small clusters and wide
+\* refcounts only (few refcounts per block).
+Pow2(n) == 2 ^ n
+RbEntries(cb, ro) == (Pow2(cb) * 8) \div Pow2(ro)
+L1Clusters(mb, cb) ==
+  LET v   == mb * (Pow2(20) \div Pow2(cb))            \* guest clusters
+      l2n == Pow2(cb) \div 8
+      l1e == (v + l2n - 1) \div l2n
+  IN (l1e * 8 + Pow2(cb) - 1) \div Pow2(cb)
+NearBlockMultiple(x, n) == \E k \in 1 .. 5 : x >= k * n - 5 /\ x <= k * n + 1
+All == "ALLSIZES" \in DOMAIN IOEnv /\ IOEnv.ALLSIZES = "1"
+MaxMb == IF "MAXMB" \in DOMAIN IOEnv THEN atoi(IOEnv.MAXMB) ELSE 700
+FormatBoundaryCases ==
+  { [t |-> "format", mb |-> mb, cb |-> g[1], ro |-> g[2], exit |-> 0, boundary |-> 1]
+    : <<mb, g>> \in { p \in (1 .. MaxMb) \X {<<9, 6>>, <<9, 5>>, <<10, 6>>} :
+                        All \/ NearBlockMultiple(2 + L1Clusters(p[1], p[2][1]), RbEntries(p[2][1], p[2][2])) } }
+
 \* check: accepts consistent images, reports failure for images with leaks
 CheckCases == { [t |-> "check", leaks |-> k, shape |-> sh, accept |-> (k = 0)]
                 : k \in {0, 1, 3}, sh \in {"plain", "data", "zero_prealloc", "compressed"} }
 
-ASSUME \A c \in ConvertCases \cup FormatCases \cup CheckCases : PrintT("@@" \o ToJson(c))
+ASSUME \A c \in ConvertCases \cup FormatCases \cup FormatBoundaryCases \cup CheckCases : PrintT("@@" \o ToJson(c))
 =============================================================================
